@@ -466,3 +466,41 @@ Proof.
   - intros [->| ->]; destruct b; reflexivity.
   - intros c r ->. reflexivity.
 Qed.
+
+(* ------------------------------------------------------------------------------------------------ 2g. project / package names *)
+(* an override is taken verbatim *)
+Theorem project_name_override_verbatim : forall c r title, project_name (Some (c :: r)) title = c :: r.
+Proof. reflexivity. Qed.
+Theorem package_name_override_verbatim : forall c r po title, package_name (Some (c :: r)) po title = c :: r.
+Proof. reflexivity. Qed.
+
+(* without a package override the package name is the project name with every `-` replaced by `_` and NOTHING else changed:
+   same length, and position by position either the same character, or `-` became `_` *)
+Theorem package_name_is_dash_replacement : forall po title,
+  let p := project_name po title in
+  let k := package_name None po title in
+  List.length k = List.length p /\
+  forall i, nth i k 0 = (if nth i p 0 =? 45 then 95 else nth i p 0).
+Proof.
+  intros po title p k. unfold k, package_name, nonempty_or. fold p. unfold replace_dash. split.
+  - apply map_length.
+  - intros i. exact (map_nth (fun c => if c =? 45 then 95 else c) p 0 i).
+Qed.
+
+(* in particular: case, digits, dots, spaces and underscores of a project_name_override survive; no dash remains *)
+Theorem package_name_keeps_other_chars : forall c r title x,
+  In x (package_name None (Some (c :: r)) title) -> x <> 45 /\ (In x (c :: r) \/ (x = 95 /\ In 45 (c :: r))).
+Proof.
+  intros c r title x H. unfold package_name, nonempty_or, project_name, replace_dash in H.
+  apply in_map_iff in H. destruct H as [y [Hy Hin]]. destruct (N.eqb_spec y 45) as [E|E].
+  - subst. split; [discriminate|]. right. split; [reflexivity|exact Hin].
+  - subst. split; [exact E|]. left. exact Hin.
+Qed.
+
+Example package_name_examples :
+  package_name None (Some (s2l "AcmeBilling-SDK")) (s2l "t") = s2l "AcmeBilling_SDK" /\
+  package_name None (Some (s2l "billingV2-client")) (s2l "t") = s2l "billingV2_client" /\
+  package_name None (Some (s2l "a.b c__d-E")) (s2l "t") = s2l "a.b c__d_E" /\
+  package_name None None (s2l "My API v2") = s2l "my_api_v_2_client" /\
+  project_name (Some []) (s2l "My API") = s2l "my-api-client".
+Proof. vm_compute. repeat split; reflexivity. Qed.
